@@ -318,6 +318,9 @@ class EditStream(HTMLHandlerBase):
             context = self.create_context(current_stream.title, True)
             context['error'] = 'csrf check failed'
             return flask.render_template('media/stream.html', **context)
+        for name in ['title', 'marlin_la_url', 'playready_la_url']:
+            if name not in params:
+                return flask.make_response(f'{name} field missing', 400)
         current_stream.title = params['title']
         context = self.create_context(current_stream.title, False)
         if models.MediaFile.count(stream=current_stream) == 0:
